@@ -335,7 +335,16 @@ class isoparser(object):
 
         # Now add the specific number of weeks and days to get what we want
         week_offset = (week - 1) * 7 + (day - 1)
-        return week_1 + timedelta(days=week_offset)
+        try:
+            result = week_1 + timedelta(days=week_offset)
+        except OverflowError as e:
+            six.raise_from(ValueError('Date out of range'), e)
+
+        # Only week 53 of a year with 52 weeks can fail this
+        if result.isocalendar()[1] != week:
+            raise ValueError('Invalid week: {} for year {}'.format(week, year))
+
+        return result
 
     def _parse_isotime(self, timestr):
         len_str = len(timestr)
